@@ -345,6 +345,19 @@ def _cost_cases():
         return dict(self=P, x=f.array('x', (4 * N,)))
     yield 'rank=2, after an earlier evaluation at another trial vector', build2
 
+    def build3(f):
+        # C12: a tabulated omega whose length differs from the domain's (a one-column file of the wrong length survives
+        # PRISM.__init__): the first evaluation must raise, no correlation function is produced from mismatched data
+        P = mk_real_PRISM(f, 2, COST_MIXES[2][0])
+        N = f.getattr(f.getattr(f.getattr(P, 'sys'), 'domain'), '_length')
+        Lw = f.int('Lw', lo=2)
+        f.assume(f.Not(f.eq(Lw, N)))
+        f.assume(N >= 2)
+        W = mk_MA(f, 'Wbad', Lw, 2, space=f.enum(SP, 'Fourier'))
+        f.setattr(P, 'omega', W)
+        return dict(self=P, x=f.array('x', (4 * N,)))
+    yield 'rank=2, omega of a length different from the domain', build3, {'post_body': lambda f, a, r: [('unreachable: evaluation with mismatched omega returned', False)]}
+
 
 # --------------------------------------------------------------------------- PRISM.solve, System.createPRISM / solve
 
